@@ -6,7 +6,9 @@ use cosmwasm_std::{
 use white_whale_std::pool_network::asset::AssetInfo;
 
 use crate::helpers::{get_flow_asset_amount_at_epoch, get_flow_current_end_epoch};
-use crate::state::{EpochId, ADDRESS_WEIGHT_HISTORY, GLOBAL_WEIGHT_SNAPSHOT, LAST_CLAIMED_EPOCH};
+use crate::state::{
+    EpochId, ADDRESS_WEIGHT, ADDRESS_WEIGHT_HISTORY, GLOBAL_WEIGHT_SNAPSHOT, LAST_CLAIMED_EPOCH,
+};
 use crate::{error::ContractError, helpers, state::FLOWS};
 
 //todo abstract code in this function as most of it is also used in get_rewards.rs
@@ -224,10 +226,15 @@ pub fn claim(deps: &mut DepsMut, info: &MessageInfo) -> Result<Vec<CosmosMsg>, C
 
     // update the last seen weight for the user, storing what the weight is gonna be from the next
     // epoch (since current epoch was just claimed)
+    // (the address' current weight, not the last weight the flow loops above happened to see: a position change made
+    // after the last flow ended, or a claim that walked no flow at all, would otherwise bring an old weight back)
+    let current_user_weight = ADDRESS_WEIGHT
+        .may_load(deps.storage, address.clone())?
+        .unwrap_or_default();
     ADDRESS_WEIGHT_HISTORY.update::<_, StdError>(
         deps.storage,
         (&address, current_epoch + 1u64),
-        |_| Ok(last_user_weight_seen),
+        |_| Ok(current_user_weight),
     )?;
 
     // store last claimed epoch for the user
